@@ -242,13 +242,31 @@ def tied_extremum(case, x):
             return False
 
 
+FAMILY = {}
+for _f, _ops in {
+    "minmax": ["min", "max", "nanmin", "nanmax"],
+    "moment": ["var", "std", "nanvar", "nanstd", "moment"],
+    "sum": ["sum", "prod", "any", "all", "mean", "nansum", "nanprod", "nanmean"],
+    "arg": ARG,
+    "scan": SCAN,
+    "topk": TOPK,
+    "order": ORDER,
+}.items():
+    for _o in _ops:
+        FAMILY[_o] = _f
+
+
 def sig_of(case, x=None):
     sig = dict(
         op=case["op"],
+        family=FAMILY[case["op"]],
         zero_chunk_on_reduced_axis=zero_chunk_on_reduced_axis(case),
         axis_none=case["axis"] is None,
         arg_axis_none_multichunk=arg_axis_none_multichunk(case),
         empty_unreduced_axis=empty_unreduced_axis(case),
+        # strata: an explicit zero-size chunk on any axis (an empty block exists) / a zero-length axis (the array is empty)
+        zero_chunk=A.has_zero_chunk(case["array"]["chunks"]),
+        zero_size_array=0 in case["array"]["shape"],
     )
     if case["op"] in TOPK:
         sig["k_ge_axis_len"] = k_ge_axis_len(case)
@@ -273,7 +291,7 @@ def check(case):
     what0 = f"{op}(x{arr['shape']} {arr['dtype']} chunks={arr['chunks']}, axis={case['axis']}, keepdims={case.get('keepdims', False)}" + "".join(
         f", {k}={case[k]}" for k in ("ddof", "order", "k", "q", "method") if k in case
     )
-    if op in ("var", "std", "nanvar", "nanstd", "moment") and x.size:
+    if op in ("var", "std", "nanvar", "nanstd", "moment"):
         # N - ddof <= 0 is outside the property (NumPy clips the divisor and warns)
         cnt = ~np.isnan(x) if (op.startswith("nan") and x.dtype.kind == "f") else np.ones(x.shape, bool)
         n = cnt.sum(axis=tuple(axes))
@@ -452,10 +470,10 @@ def random_case(draw):
     max_side = 5 if op in ("prod", "nanprod", "cumprod", "nancumprod") else 7
     arr = draw(
         C.array_st(
-            zero_chunk_pct=10,
+            zero_chunk_pct=18,  # (zero-extended completions never take the branch: ~10% of the evaluated cases)
             min_dims=1,
             max_dims=3,
-            min_side=draw(st.sampled_from([0, 1, 2, 2, 3])),
+            min_side=draw(st.sampled_from([1, 2, 2, 3] if op in TOPK else [0, 1, 2, 2, 3])),
             max_side=max_side,
             dtypes=dtypes,
             fills=fills,
